@@ -122,7 +122,9 @@ pub fn run_kmerge(args: &[Sx]) -> Sx {
             let l = x.list();
             match l[0].atom() { "ok" => Ok((l[1].u64(), l[2].u64())), "err" => Err(TagErr(l[1].u64())), _ => panic!("glue: mitem") }
         }).collect()).collect();
-        let n: usize = chunks.iter().map(|c| c.len()).sum();
+        let total: usize = chunks.iter().map(|c| c.len()).sum();
+        // the caller-supplied item count is only what len() reports; it must not influence the merged stream
+        let n: usize = if args.len() > 3 { match args[3].atom() { "exact" => total, h => h.parse().expect("glue: hint") } } else { total };
         let cmp = move |x: &(u64, u64), y: &(u64, u64)| -> Ordering { if rev { y.0.cmp(&x.0) } else { x.0.cmp(&y.0) } };
         let mut m = BinaryHeapMerger::new(n, chunks, cmp);
         if m.len() != n { emit(a("ORACLE-FAIL:len-differs-from-num-items")); }
@@ -170,6 +172,31 @@ pub fn run_xsort(args: &[Sx]) -> Sx {
 }
 
 static CMP_COUNT: std::sync::atomic::AtomicUsize = std::sync::atomic::AtomicUsize::new(0);
+
+/// two sorts on ONE sorter object; the two result iterators are consumed alternately
+pub fn run_xsort2(args: &[Sx]) -> Sx {
+    with_panic(|emit| {
+        let rev = args[3].atom() == "1";
+        let mk = |x: &Sx| -> Vec<(u64, u64, Vec<u8>)> { x.tagged("items").iter().map(|x| { let l = x.list(); (l[0].u64(), l[1].u64(), pad(l[1].u64(), if l.len() > 2 { l[2].usize() } else { 0 })) }).collect() };
+        let (ia, ib) = (mk(&args[4]), mk(&args[5]));
+        let dir = tempfile::tempdir_in(scratch()).expect("glue: tempdir");
+        let sorter = builder(&args[0], &args[1], &args[2], dir.path()).build().expect("glue: build sorter");
+        let cmp = move |x: &(u64, u64, Vec<u8>), y: &(u64, u64, Vec<u8>)| -> Ordering { if rev { y.0.cmp(&x.0) } else { x.0.cmp(&y.0) } };
+        let mut it_a = sorter.sort_by(ia, cmp).expect("sort_by returned an error");
+        let mut it_b = sorter.sort_by(ib, cmp).expect("sort_by returned an error");
+        let (la, lb) = (it_a.len(), it_b.len());
+        let (mut oa, mut ob) = (Vec::new(), Vec::new());
+        let conv = |r: Result<(u64, u64, Vec<u8>), _>| match r { Ok((k, id, p)) => { if pad(id, p.len()) != p { a("ORACLE-FAIL:payload-altered") } else { Sx::L(vec![a("ok"), a(k), a(id)]) } } Err(_) => Sx::L(vec![a("err"), a(0)]) };
+        loop {
+            let (xa, xb) = (it_a.next(), it_b.next());
+            if xa.is_none() && xb.is_none() { break; }
+            if let Some(r) = xa { oa.push(conv(r)); }
+            if let Some(r) = xb { ob.push(conv(r)); }
+        }
+        emit(Sx::L(vec![a("len"), a(la)])); emit(tag("out", oa));
+        emit(Sx::L(vec![a("len"), a(lb)])); emit(tag("out", ob));
+    })
+}
 
 fn listing(root: &std::path::Path) -> Vec<Sx> {
     fn walk(root: &std::path::Path, d: &std::path::Path, out: &mut Vec<String>) {
